@@ -123,23 +123,20 @@ PrintedUnit(p) ==
   ELSE IF Has(p, "dimensions") THEN ParseUnitText(p.dimensions)
   ELSE <<>>
 
-\* x: the number the numeral has to stand for; rs*: readings bound once
+\* x: the number the numeral has to stand for
 NumeralLaw(p, x, base, single, i, where) ==
   IF single THEN
     /\ (IF Has(p, "exact") \/ Has(p, "approx") THEN TRUE ELSE Say("REJECT", i, where, "no-numeral"))
     /\ (IF ~Has(p, "exact") THEN TRUE
-        ELSE \E rs \in {Readings(p.exact, base)} :
-             IF rs = {} THEN Say("UNSUPPORTED", i, where, "numeral")
-             ELSE IF ExactIn(rs, x) THEN TRUE ELSE Say("REJECT", i, where, "exact"))
+        ELSE IF ~Supported(p.exact, base) THEN Say("UNSUPPORTED", i, where, "numeral")
+        ELSE IF ExactOK(x, p.exact, base) THEN TRUE ELSE Say("REJECT", i, where, "exact"))
     /\ (IF ~Has(p, "approx") THEN TRUE
-        ELSE \E rs \in {Readings(p.approx, base)} :
-             IF rs = {} THEN Say("UNSUPPORTED", i, where, "numeral")
-             ELSE IF ApproxIn(rs, x) THEN TRUE ELSE Say("REJECT", i, where, "approx"))
+        ELSE IF ~Supported(p.approx, base) THEN Say("UNSUPPORTED", i, where, "numeral")
+        ELSE IF ApproxOK(x, p.approx, base) THEN TRUE ELSE Say("REJECT", i, where, "approx"))
   ELSE
     IF ~Has(p, "exact") THEN Say("REJECT", i, where, "no-numeral")
-    ELSE \E rs \in {Readings(p.exact, base)} :
-         IF rs = {} THEN Say("UNSUPPORTED", i, where, "numeral")
-         ELSE IF WithinIn(rs, x) THEN TRUE ELSE Say("REJECT", i, where, "entry")
+    ELSE IF ~Supported(p.exact, base) THEN Say("UNSUPPORTED", i, where, "numeral")
+    ELSE IF WithinOK(x, p.exact, base) THEN TRUE ELSE Say("REJECT", i, where, "entry")
 
 \* T: [ok, v, d] the computed quantity.  single: marked numerals (exact / approx) or an unmarked list entry.
 \* realdims: p.raw_dimensions are base units (not for list entries / substance ratio properties).
